@@ -241,6 +241,7 @@ CHECKS = {
             mc("calls-1", "MC_C03.tla", "MC_C03_1.cfg"),
             mc("calls-concat", "MC_C03.tla", "MC_C03_concat.cfg"),
             mc("calls-optional-params", "MC_C03.tla", "MC_C03_opt2.cfg"),
+            mc("calls-dropping", "MC_C03.tla", "MC_C03_drop.cfg"),
             mc("calls-2", "MC_C03.tla", dict(quick=None, thorough="MC_C03_2.cfg")),
             mc("calls-3", "MC_C03.tla", dict(quick=None, thorough="MC_C03_3.cfg")),
             lang("calls", "rich", 4000, 150000, ["--nctx", "6", "--depth", "3", "--callpct", "70"], shards=SH),
@@ -258,6 +259,7 @@ CHECKS = {
             mc("matrix-logic", "MC_C04.tla", "MC_C04_logic.cfg"),
             mc("matrix-chains", "MC_C04.tla", "MC_C04_logic3.cfg"),
             mc("matrix-quantifiers", "MC_C04.tla", "MC_C04_quant.cfg", workers=2),
+            mc("calls-typed-absence", "MC_C03.tla", "MC_C03_0.cfg"),
             lang("mutants", "rich", 5000, 200000, ["--nctx", "4", "--depth", "3", "--mutate", "60"], shards=SH),
             lang("scalar-mutants", "c01", 2000, 60000, ["--nctx", "4", "--depth", "4", "--mutate", "60"], shards=SH, seed_off=2),
         ],
